@@ -1,8 +1,150 @@
 (** Lemmas and proofs for C09 (bitstr). *)
-From Coq Require Import ZArith List Bool Lia.
-From Low Require Import Lib.MachInt Lib.Bits Lib.BitSeq Lib.Bytes Lib.Lex Lib.Pack_bw Model.Bitstr Spec.BitstrSpec.
+From Coq Require Import ZArith List Bool Lia PeanoNat.
+From Low Require Import Lib.MachInt Lib.Bits Lib.BitSeq Lib.Bytes Lib.Lex Lib.Pack_bw
+  Lib.PackLemmas_bw Lib.LexLemmas_bw Lib.LexExtra_sig Lib.PadLex_bw9 Model.Bitstr Spec.BitstrSpec.
 Import ListNotations.
 Open Scope Z_scope.
 
 Lemma StrCmpUpto_eq a b : StrCmpUpto a b = CmpUpto a b.
 Proof. reflexivity. Qed.
+
+(** * list plumbing *)
+Lemma zlen_app {A} (a b : list A) : zlen (a ++ b) = zlen a + zlen b.
+Proof. unfold zlen. rewrite app_length. lia. Qed.
+
+Lemma zlen_cons {A} (x : A) l : zlen (x :: l) = 1 + zlen l.
+Proof. unfold zlen. cbn [length]. lia. Qed.
+
+Lemma zlen_nonneg {A} (l : list A) : 0 <= zlen l.
+Proof. unfold zlen. lia. Qed.
+
+(** [s[:n]] of a list that starts with the n elements [a] *)
+Lemma sliceZ_prefix (a r : list Z) n : n = zlen a -> sliceZ (a ++ r) 0 n = Some a.
+Proof.
+  intros ->. unfold sliceZ. pose proof (zlen_nonneg a). pose proof (zlen_nonneg r). rewrite zlen_app.
+  replace ((0 <=? 0) && (0 <=? zlen a) && (zlen a <=? zlen a + zlen r)) with true
+    by (symmetry; rewrite !andb_true_iff, !Z.leb_le; lia).
+  f_equal. cbn [Z.to_nat skipn]. rewrite Z.sub_0_r. unfold zlen. rewrite Nat2Z.id.
+  rewrite firstn_app, Nat.sub_diag, firstn_O, app_nil_r. apply firstn_all.
+Qed.
+
+Lemma nthZ_app_at {A} (a : list A) x r i : i = zlen a -> nthZ (a ++ x :: r) i = Some x.
+Proof.
+  intros ->. unfold zlen. rewrite nthZ_of_nat, nth_error_app2 by lia. now rewrite Nat.sub_diag.
+Qed.
+
+(** * the mask byte *)
+Lemma mask_eq n : high_mask (last_bits n) = 256 - 2 ^ Z.of_nat (padn n).
+Proof.
+  unfold high_mask, last_bits. cbv zeta. rewrite last_bits_padn. do 2 f_equal. lia.
+Qed.
+
+Lemma sub_compare c x y : (c - x ?= c - y) = (y ?= x).
+Proof.
+  destruct (Z.compare_spec y x) as [E|E|E].
+  - subst. apply Z.compare_refl.
+  - apply Z.compare_lt_iff. lia.
+  - apply Z.compare_gt_iff. lia.
+Qed.
+
+(** same number of payload bytes: the mask bytes order like the bit lengths *)
+Lemma mask_compare n1 n2 : (n1 + padn n1 = n2 + padn n2)%nat ->
+  (high_mask (last_bits n1) ?= high_mask (last_bits n2)) = Nat.compare n1 n2.
+Proof.
+  intros H. rewrite !mask_eq, sub_compare, pow2_compare, Nat2Z.inj_compare by lia.
+  destruct (Nat.compare_spec (padn n2) (padn n1)), (Nat.compare_spec n1 n2); try reflexivity; lia.
+Qed.
+
+Lemma zlen_encB b : zlen (encB b) = zlen (pack b) + 1.
+Proof. unfold encB. rewrite zlen_app. reflexivity. Qed.
+
+(** * Len *)
+Lemma Len_encB b : Len (encB b) = Some (zlen b).
+Proof.
+  unfold Len. cbv zeta. rewrite zlen_encB. unfold encB.
+  rewrite nthZ_app_at by lia. f_equal.
+  rewrite mask_eq. pose proof (padn_lt (length b)) as P.
+  rewrite popcount_high_mask by lia.
+  pose proof (pack_length8 b) as L. unfold zlen. lia.
+Qed.
+
+(** * Cmp *)
+Lemma pack_cmp b1 b2 : bytes_cmp (pack b1) (pack b2) = bits_cmp (pad8 b1) (pad8 b2).
+Proof. rewrite bytes_cmp_msb_bits by apply pack_bytes_ok. now rewrite !msb_bits_pack. Qed.
+
+Lemma bytes_cmp_single x y : bytes_cmp [x] [y] = (x ?= y).
+Proof. unfold bytes_cmp. cbn [lex_cmp]. now destruct (x ?= y). Qed.
+
+Lemma pack_cmp_shorter b1 b2 : (length (pack b1) < length (pack b2))%nat ->
+  bytes_cmp (pack b1) (pack b2) = bits_cmp b1 b2.
+Proof.
+  intros H. rewrite pack_cmp. unfold pad8. apply pad_cmp_shorter2.
+  pose proof (pack_length8 b1). pose proof (pack_length8 b2). pose proof (padn_lt (length b2)). lia.
+Qed.
+
+Lemma Cmp_encB b1 b2 : Cmp (encB b1) (encB b2) = Some (cmp_sign (bits_cmp b1 b2)).
+Proof.
+  unfold Cmp. cbv zeta. rewrite !zlen_encB.
+  destruct (Z.eqb_spec (zlen (pack b1) + 1) (zlen (pack b2) + 1)) as [E|E].
+  - f_equal. unfold bytesCompare. f_equal.
+    assert (L : length (pack b1) = length (pack b2)) by (unfold zlen in E; lia).
+    unfold encB, bytes_cmp. rewrite lex_cmp_app_eqlen by exact L. fold bytes_cmp.
+    rewrite bytes_cmp_single, pack_cmp. unfold pad8.
+    pose proof (pack_length8 b1) as L1. pose proof (pack_length8 b2) as L2.
+    rewrite mask_compare by lia. apply pad_cmp_same_total. lia.
+  - unfold encB. rewrite !sliceZ_prefix by lia. f_equal. unfold bytesCompare. f_equal.
+    destruct (Nat.lt_ge_cases (length (pack b1)) (length (pack b2))) as [Hlt|Hge].
+    + now apply pack_cmp_shorter.
+    + rewrite bytes_cmp_antisym, (bits_cmp_antisym b2 b1). f_equal.
+      apply pack_cmp_shorter. unfold zlen in E. lia.
+Qed.
+
+(** * cmpBytes *)
+Lemma cmpBytes_loop_eq a : forall b, (length a <= length b)%nat ->
+  cmpBytes_loop a b = Some (cmp_sign (bytes_cmp a b)).
+Proof.
+  induction a as [|x a IH]; intros [|y b] H; cbn [length] in H; try lia.
+  - reflexivity.
+  - reflexivity.
+  - cbn [cmpBytes_loop]. unfold bytes_cmp. cbn [lex_cmp]. fold bytes_cmp.
+    unfold Z.ltb, Z.gtb. destruct (x ?= y); try reflexivity. apply IH. lia.
+Qed.
+
+(** the manual loop indexes [b] out of range exactly when [b] is a proper prefix of [a] *)
+Lemma cmpBytes_loop_panic a : forall b,
+  cmpBytes_loop a b = None <-> exists r, r <> [] /\ a = b ++ r.
+Proof.
+  induction a as [|x a IH]; intros [|y b]; cbn [cmpBytes_loop].
+  - split; [discriminate|]. intros (r & Hr & E). destruct r; [congruence|discriminate].
+  - split; [discriminate|]. intros (r & Hr & E). discriminate.
+  - split; [|reflexivity]. intros _. exists (x :: a). split; [discriminate|reflexivity].
+  - unfold Z.ltb, Z.gtb. destruct (Z.compare_spec x y) as [E|E|E].
+    + subst. rewrite IH. split; intros (r & Hr & Er); exists r; (split; [exact Hr|]).
+      * cbn [app]. now f_equal.
+      * cbn [app] in Er. now injection Er.
+    + split; [discriminate|]. intros (r & Hr & Er). cbn [app] in Er. injection Er as -> _. lia.
+    + split; [discriminate|]. intros (r & Hr & Er). cbn [app] in Er. injection Er as -> _. lia.
+Qed.
+
+Lemma cmpBytes_long a b : 8 <= zlen a -> cmpBytes a b = Some (cmp_sign (bytes_cmp a b)).
+Proof. intros H. unfold cmpBytes. destruct (Z.ltb_spec (zlen a) 8); [lia|reflexivity]. Qed.
+
+Lemma cmpBytes_short a b : zlen a < 8 -> (length a <= length b)%nat ->
+  cmpBytes a b = Some (cmp_sign (bytes_cmp a b)).
+Proof. intros H L. unfold cmpBytes. destruct (Z.ltb_spec (zlen a) 8); [|lia]. now apply cmpBytes_loop_eq. Qed.
+
+(** both sides of the 8-byte switch, on every call that does not index out of range *)
+Lemma cmpBytes_eq a b : (length a <= length b)%nat \/ 8 <= zlen a ->
+  cmpBytes a b = Some (cmp_sign (bytes_cmp a b)).
+Proof.
+  intros [H|H].
+  - destruct (Z.lt_ge_cases (zlen a) 8); [now apply cmpBytes_short|apply cmpBytes_long; lia].
+  - now apply cmpBytes_long.
+Qed.
+
+Lemma cmpBytes_panic a b : cmpBytes a b = None <-> zlen a < 8 /\ exists r, r <> [] /\ a = b ++ r.
+Proof.
+  unfold cmpBytes. destruct (Z.ltb_spec (zlen a) 8) as [H|H].
+  - rewrite cmpBytes_loop_panic. tauto.
+  - split; [discriminate|]. intros [? _]. lia.
+Qed.
